@@ -39,6 +39,9 @@ TEMPLATES = {
     "unicode_dict_delete": ("    assert {'ä': x0} == snapshot({'ä': c0, 'b': c1})\n", ["x0", "c0", "c1"]),
     "unicode_before_nested": ("    assert ('é€', x0, [x1]) == ('é€', snapshot(c0), snapshot([c1, c2]))\n", ["x0", "x1", "c0", "c1", "c2"]),
     "unicode_list_mixed": ("    a = 'äöü'; assert [x0, x1, 'ß'] == snapshot([c0, 'ß', c1]); b = '✓'\n", ["x0", "x1", "c0", "c1"]),
+    "in_multiline_trailing_comma": ("    s = snapshot([\n        c0,\n        c1,\n    ])\n    assert x0 in s\n", ["x0", "c0", "c1"]),
+    "in_spaces_before_bracket": ("    assert x0 in snapshot([c0, c1 ])\n    assert x1 in snapshot( [ c2 , ] )\n", ["x0", "x1", "c0", "c1", "c2"]),
+    "getitem_multiline": ("    s = snapshot({\n        1: c0,\n        2: c1,\n    })\n    assert s[3] == x0\n    assert s[1] == x1\n", ["x0", "x1", "c0", "c1"]),
     "bound_compare_raises": ("    assert 'a' <= snapshot(c0)\n", ["c0"]),
     "bound_compare_raises_second": ("    for x in [x0, 'a']:\n        assert x <= snapshot(c0)\n", ["x0", "c0"]),
     "getitem_is_value_loop": ("    for i in [x0, x0]:\n        assert snapshot({1: Is(i)})[1] == i\n", ["x0"]),
